@@ -637,6 +637,8 @@ def compare(op, a, b):
         a = collapse(a)
     if isinstance(b, Choice):
         b = collapse(b)
+    if op == '!=' and isinstance(a, SSeq) and a.kind == 'nd' and is_num(b):
+        return nd_compare('!=', a, b)
     if op in ('==', '!='):
         r = equal(a, b)
         if op == '!=':
